@@ -635,6 +635,38 @@ def module_alias_variants(code: str):
     return []
 
 
+def class_base_variants(code: str):
+    """A class of the seed additionally inherits from a small mixin defined in the same module, listed first or last among
+    its bases: codemods that look at the bases / the methods of a class (and of its bases) see a same-module base that
+    has none of the methods they look for."""
+    import ast
+    try:
+        tree = ast.parse(code)
+    except (SyntaxError, ValueError, RecursionError):
+        return []
+    code_nl = code if code.endswith("\n") else code + "\n"
+    out = []
+    for n in tree.body:
+        if isinstance(n, ast.ClassDef) and n.bases and not n.decorator_list and n.bases[0].lineno == n.lineno and not n.keywords:
+            lines = code_nl.splitlines(keepends=True)
+            first, last = n.bases[0], n.bases[-1]
+            if last.end_lineno != n.lineno:
+                continue
+            mixin = "class _AuditMixin:\n    created_by = None\n\n\n"
+            for label, col, text in (("mixin_base_first", first.col_offset, "_AuditMixin, "), ("mixin_base_last", last.end_col_offset, ", _AuditMixin")):
+                ls = list(lines)
+                hdr = ls[n.lineno - 1]
+                # columns are utf-8 byte offsets
+                hb = hdr.encode("utf-8")
+                ls[n.lineno - 1] = (hb[:col] + text.encode() + hb[col:]).decode("utf-8")
+                new = "".join(ls[:n.lineno - 1]) + mixin + "".join(ls[n.lineno - 1:])
+                pre, body = _split_future(new) if False else ("", new)
+                if parses(new):
+                    out.append((label, new))
+            break
+    return out
+
+
 def composed_variants(code: str, rng, k=4):
     """A structural wrapper with a layout / comment / context variant applied on top of it."""
     base = [v for v in _variants_basic(code, True) if v[0].startswith("in_")]
@@ -665,5 +697,6 @@ def variants(code: str, shift_ok: bool, rng=None):  # noqa: F811
         out.extend(own_block_variants(code if code.endswith("\n") else code + "\n", rng))
         out.extend(binding_variants(code))
         out.extend(module_alias_variants(code))
+        out.extend(class_base_variants(code))
         out.extend(composed_variants(code if code.endswith("\n") else code + "\n", rng or __import__("random").Random(0)))
     return out
